@@ -205,7 +205,18 @@ META["C17"] = {
     "technique": "bounded exhaustive enumeration of write histories x queries, and exhaustive enumeration of truncation offsets, on the implementation",
 }
 
-ENGINE_OF = {"C17": "seq", "C20": "seq", "C07": "seq", "C15": "sched", "C16": "seq", "C14": "seq", "C13": "seq", "C05": "seq", "C11": "seq", "C10": "seq+sched", "C12": "sched", "C03": "seq", "C06": "seq+sched", "C09": "sched", "C08": "seq", "C02": "seq+sched", "C04": "seq+sched", "C01": "seq+sched"}
+META["C18"] = {
+    "level": "exploration",
+    "rule": "per rule handler (flow, system, circuit breaker, hotspot, isolation) BFS over all delivery sequences to the depth bound over {three valid arrays of 1-2 rules in the wire format (one containing an invalid rule), [], empty payload, [null], [valid,null], [1], [\"x\"], {}, null, wrongly typed field, rules pre-loaded through the API}; in every reached state EVERY proper prefix of a valid two-rule payload (200-500 truncated JSON texts) is delivered as a one-step probe; oracle: never a panic; undecodable => error and rules unchanged; decodable => getters equal the valid rules of the payload (validity by the module's IsValidRule); empty => cleared; plus the wire round trip of each module and, for the file datasource, every sequence (depth 3/4) of write / truncate / chmod / atomic replace / rename-away / remove events injected through a fake fsnotify watcher with rendez-vous barriers; distinct = handler + answer",
+    "assumptions": [A_CLOCK, A_OVERLAY, "decodability is decided by encoding/json on the module's wire type (the statement's 'a payload that decodes to a rule list')", "file datasource: events are injected in order through a replacement of the fsnotify watcher; removal / rename-away are terminal events (the consumer goroutine stops), awaited by a bounded number of scheduler yields, not by wall time"],
+    "budget_quick": 90,
+    "budget_thorough": 600,
+    "text": "Bounded exhaustive exploration of payload delivery sequences with exhaustive truncation probes, and of file event sequences.",
+    "level_note": "Delivery depth 3 (quick) / 4 (thorough); 'all byte strings' is covered by classes plus every truncation of one valid payload per handler.",
+    "technique": "explicit-state BFS over delivery sequences on the implementation with reference comparison; exhaustive prefix (truncation) enumeration",
+}
+
+ENGINE_OF = {"C18": "seq", "C17": "seq", "C20": "seq", "C07": "seq", "C15": "sched", "C16": "seq", "C14": "seq", "C13": "seq", "C05": "seq", "C11": "seq", "C10": "seq+sched", "C12": "sched", "C03": "seq", "C06": "seq+sched", "C09": "sched", "C08": "seq", "C02": "seq+sched", "C04": "seq+sched", "C01": "seq+sched"}
 
 # properties not claimed, with the reason (kept current)
 NOT_APPLICABLE = {}
